@@ -27,6 +27,7 @@ import (
 	"time"
 
 	"seehuhn.de/go/sfnt"
+	"seehuhn.de/go/sfnt/glyph"
 	"seehuhn.de/go/sfnt/opentype/gtab"
 	"seehuhn.de/go/sfnt/opentype/gtab/builder"
 	"seehuhn.de/go/sfnt/verifharness/vlib"
@@ -153,6 +154,62 @@ func explain(f *sfnt.Font, table string, ll gtab.LookupList) (text string, panic
 
 var procsForReplay = []int{1, 2, 4, 8, 16}
 
+// Open finding (findings/C19.json): in GSUB5/GSUB6 the words class,
+// inputclass, backtrackclass and lookaheadclass start a class definition.  A
+// font may have a glyph with such a name; a context rule that starts with
+// that glyph is then written in a way the parser reads as a class definition.
+const sigClassKeyword = "context-rule-starts-with-glyph-named-like-class-keyword"
+
+var classKeywords = []string{"class", "inputclass", "backtrackclass", "lookaheadclass"}
+
+// startsWithClassKeywordGlyph reports whether some subtable of a GSUB5/6
+// lookup in the explained text begins with a glyph whose name is one of the
+// class keywords (i.e. the keyword is not followed by " :").
+func startsWithClassKeywordGlyph(fs *fontSpec, text string) bool {
+	has := false
+	for _, n := range fs.names {
+		for _, k := range classKeywords {
+			if n == k {
+				has = true
+			}
+		}
+	}
+	if !has {
+		return false
+	}
+	// split into subtable texts, remembering the lookup type
+	for _, lookup := range strings.Split("\n"+text, "\nGSUB") {
+		var kws []string
+		switch {
+		case strings.HasPrefix(lookup, "5"):
+			kws = classKeywords[:1]
+		case strings.HasPrefix(lookup, "6"):
+			kws = classKeywords[1:]
+		default:
+			continue
+		}
+		if i := strings.Index(lookup, ":"); i >= 0 {
+			lookup = lookup[i+1:]
+		}
+		for _, c := range strings.Split(lookup, " ||\n\t") {
+			f := strings.Fields(c)
+			// skip the lookup flags
+			for len(f) > 0 && strings.HasPrefix(f[0], "-") && len(f[0]) > 1 {
+				f = f[1:]
+			}
+			if len(f) == 0 {
+				continue
+			}
+			for _, k := range kws {
+				if f[0] == k && (len(f) < 2 || !strings.HasPrefix(f[1], ":")) {
+					return true
+				}
+			}
+		}
+	}
+	return false
+}
+
 // checkParse runs Parse under the given GOMAXPROCS settings and evaluates the
 // oracle.  It returns the observation, whether the model can express it, and
 // the oracle's verdict (fail, sig).
@@ -203,6 +260,9 @@ func checkParse(fs *fontSpec, text string, procs []int) (obs string, modelled bo
 					fail, sig = fmt.Sprintf("description written by Explain%s is rejected: %q -> err=%v panic=%v", tab, t2, o2.err, o2.panic), "explain-not-parseable"
 				} else if got := canon(o2.lookups); got != want {
 					fail, sig = fmt.Sprintf("Explain%s -> Parse changes the lookup list: %q\nwant %s\ngot  %s", tab, t2, want, got), "explain-parse-differs"
+				}
+				if fail != "" && o2.panic == nil && !o2.hung && tab == "GSUB" && startsWithClassKeywordGlyph(fs, t2) {
+					sig = sigClassKeyword
 				}
 			}
 		}
@@ -273,6 +333,86 @@ func lexObs(text string) (string, string) {
 	return vlib.Str(l), fail
 }
 
+// ---- nested-action lists (readNestedLookups / explainNested) ----
+
+func nestedObs(text string) (obs string, acts []builder.VerifC19NestedItem, fail, sig string) {
+	base := runtime.NumGoroutine()
+	type res struct {
+		acts []builder.VerifC19NestedItem
+		err  error
+		pn   any
+	}
+	done := make(chan res, 1)
+	go func() {
+		var r res
+		defer func() {
+			if p := recover(); p != nil {
+				r.pn = p
+			}
+			done <- r
+		}()
+		r.acts, r.err = builder.VerifC19ReadNested(text)
+	}()
+	var r res
+	select {
+	case r = <-done:
+	case <-time.After(watchdog):
+		return "hang", nil, "readNestedLookups did not return", "parse-hang"
+	}
+	leak := settle(base)
+	nlines := strings.Count(text, "\n") + 1
+	switch {
+	case r.pn != nil:
+		return "panic", nil, fmt.Sprintf("readNestedLookups panicked: %v", r.pn), "parse-panic"
+	case r.err != nil:
+		o := &parseObs{err: r.err}
+		n, ok := o.line()
+		obs = fmt.Sprintf("(err %d)", n)
+		if !ok {
+			obs, fail, sig = "(err noline)", fmt.Sprintf("error without line number: %v", r.err), "parse-error-without-line"
+		} else if n < 1 || n > nlines {
+			fail, sig = fmt.Sprintf("error line %d outside the text (1..%d): %v", n, nlines, r.err), "parse-error-line-out-of-range"
+		}
+	default:
+		obs = vlib.Str(vlib.L(vlib.Atom("ok"), nestedSx(r.acts)))
+	}
+	if fail == "" && leak != 0 {
+		fail, sig = "goroutine left running", "parse-goroutine-leak"
+	}
+	return obs, r.acts, fail, sig
+}
+
+func nestedSx(acts []builder.VerifC19NestedItem) vlib.Sx {
+	l := vlib.List{}
+	for _, a := range acts {
+		l = append(l, vlib.L(vlib.Int(a.LookupListIndex), vlib.Int(a.SequenceIndex)))
+	}
+	return l
+}
+
+// checkExplainNested: explainNested, then readNestedLookups must give the list back
+func checkExplainNested(acts []builder.VerifC19NestedItem) (text, obs, fail, sig string) {
+	defer func() {
+		if p := recover(); p != nil {
+			obs, fail, sig = "panic", fmt.Sprintf("explainNested panicked: %v", p), "explain-panic"
+		}
+	}()
+	text = builder.VerifC19ExplainNested(acts)
+	l := vlib.List{vlib.Atom("text")}
+	for _, r := range text {
+		l = append(l, vlib.Int(int(r)))
+	}
+	obs = vlib.Str(l)
+	o2, back, f2, s2 := nestedObs(text)
+	if f2 != "" {
+		return text, obs, f2, s2
+	}
+	if o2 != vlib.Str(vlib.L(vlib.Atom("ok"), nestedSx(acts))) || len(back) != len(acts) {
+		fail, sig = fmt.Sprintf("explainNested -> readNestedLookups changes the list: %q -> %s", text, o2), "explain-parse-differs"
+	}
+	return
+}
+
 // hasUnmodelledKeyword reports whether the text contains a keyword that sends
 // the parser into the part of the grammar the model does not cover.
 func hasUnmodelledKeyword(text string) bool {
@@ -325,6 +465,31 @@ func RunCase(line string) (impl, fail, sig string, err error) {
 			return obs, f, "lexer-item-stream", nil
 		}
 		return obs, "", "", nil
+	case "nested":
+		if len(items) != 3 {
+			return "", "", "", fmt.Errorf("nested: 3 items expected")
+		}
+		text, err := textFromSx(items[2])
+		if err != nil {
+			return "", "", "", err
+		}
+		obs, _, fail, sig := nestedObs(text)
+		return obs, fail, sig, nil
+	case "enested":
+		al, err := vlib.AsList(items[1])
+		if err != nil {
+			return "", "", "", err
+		}
+		var acts []builder.VerifC19NestedItem
+		for _, a := range al {
+			p, err := vlib.AsInts(a)
+			if err != nil || len(p) != 2 {
+				return "", "", "", fmt.Errorf("bad action")
+			}
+			acts = append(acts, builder.VerifC19NestedItem{LookupListIndex: p[0], SequenceIndex: p[1]})
+		}
+		_, obs, fail, sig := checkExplainNested(acts)
+		return obs, fail, sig, nil
 	case "parse", "!parse":
 		if len(items) != 4 {
 			return "", "", "", fmt.Errorf("parse: 4 items expected")
@@ -564,6 +729,36 @@ func Gen(run *vlib.Run, seed uint64, tier string) {
 		}
 	}
 
+	// 3b. nested-action lists on their own
+	r = root.Fork("nested")
+	u16 := []int{0, 1, 2, 9, 10, 255, 256, 65535}
+	for i := 0; i < vlib.Count(tier, 150, 4000); i++ {
+		var acts []builder.VerifC19NestedItem
+		for k := r.Range(0, 5); k > 0; k-- {
+			acts = append(acts, builder.VerifC19NestedItem{LookupListIndex: vlib.Pick(r, u16), SequenceIndex: vlib.Pick(r, u16)})
+		}
+		text, obs, fail, sig := checkExplainNested(acts)
+		line := vlib.Line(vlib.Atom("enested"), nestedSx(acts))
+		idx := run.Add(line, obs, len(acts) > 0, "nested", "nested:explain")
+		if fail != "" {
+			run.Fail(idx, line, fail, sig)
+		}
+		texts := []string{text}
+		m, _ := mutate(r, text)
+		texts = append(texts, m, vlib.Pick(r, []string{"65536@0", "1@65536", "1@", "1 @ 2 3@4\n5@6", "-1@2", "+1@+2", "1@x", "x", "", "1@2@3", "99999999999999999999@1", "1@-0", "1\n@2"}))
+		for _, t := range texts {
+			if !validRunes(t) {
+				continue
+			}
+			o, _, f, s := nestedObs(t)
+			l := vlib.Line(vlib.Atom("nested"), clsSx([]string{t}, nil), runesSx(t))
+			ix := run.Add(l, o, strings.Contains(t, "@"), "nested", "nested:parse")
+			if f != "" {
+				run.Fail(ix, l, f, s)
+			}
+		}
+	}
+
 	// 4. long inputs: many lookups in one text, parse errors at every distance from the end
 	r = root.Fork("long")
 	nL := vlib.Count(tier, 6, 60)
@@ -580,6 +775,16 @@ func Gen(run *vlib.Run, seed uint64, tier string) {
 			cut--
 		}
 		addParse(fs, text[:cut]+" ! "+text[cut:], "text:long", "text:mutated")
+	}
+
+	// 5. the open finding: a glyph named like a class keyword starting a context rule
+	for i, kw := range classKeywords {
+		fs := &fontSpec{names: []string{".notdef", kw, "A", "B"}, cm: map[rune]glyph.ID{}}
+		text := "GSUB5: 1 A -> 1@0, B -> 2@0\n"
+		if i%2 == 1 {
+			text = "GSUB6: -marks 1 | A | -> 1@0\n"
+		}
+		addParse(fs, text, "font:class-keyword-name")
 	}
 
 	ph := map[string]int{}
